@@ -32,6 +32,8 @@ class Env(object):
 
     def an(self, name):
         """a.name / a["name"]: the column at the header position of `name` (None when the record is shorter)."""
+        if name not in self.ha:
+            raise RefError('RbqlRuntimeError', 'No "%s" field at record %d' % (name, self.NR))   # dictionary-style variable of a column the header does not have
         i = self.ha.index(name)
         return self.ra[i] if i < len(self.ra) else None
 
